@@ -68,6 +68,18 @@ def run(ctx):
         am.push_instruction(I, value)
         harvest("push_instruction(%s %s)" % (vname, ", ".join(c.desc for c in combo)))
     chk.floor("instruction shapes pushed through the translator", nshapes, 1900)
+    # .ORG per direction: a site of the translator that can fail is keyed by the directions it fails for (the known finding
+    # is the deliberate abort for a BACKWARD .ORG; a forward .ORG - however far - is a different input)
+    ivi_ = am.vi["Instruction"]
+    unroll0 = I.unroll
+    I.unroll = 300            # the zero fill of a forward .ORG is interpreted exactly (up to 255 bytes)
+    for dname, n0_, addr_ in (("backward", 200, D.norm_rng(0, 199)), ("backward", 1, 0), ("backward", 255, 254),
+                              ("forward", 10, 10), ("forward", 10, 11), ("forward", 10, 137), ("forward", 10, 138),
+                              ("forward", 10, 255), ("forward", 0, 127), ("forward", 0, 128), ("forward", 0, 255),
+                              ("forward", 100, 239), ("forward", 200, 201), ("forward", 127, 255)):
+        am.push_instruction(I, En({ivi_["AsmOrigin"]: (addr_,)}), next_addr=n0_)
+        harvest("org[%s]" % dname)
+    I.unroll = unroll0
     # ---- B. push for label / empty lines ----------------------------------------------
     lvi = am.vi["Line"]
     for desc, line in (("label", En({lvi["Label"]: (Opaque("LBL"), En({0: (), 1: (Opaque("c"),)}))})),
@@ -232,6 +244,9 @@ def run(ctx):
             kinds_ = sorted({lab_[len("Machine::load["):-1] for lab_, _e in fl if lab_.startswith("Machine::load[")})
             if kinds_:
                 s = dict(s, key="%s@%s" % (s["key"], ",".join(kinds_)))
+            dirs_ = sorted({lab_[len("org["):-1] for lab_, _e in fl if lab_.startswith("org[")})
+            if dirs_:
+                s = dict(s, key="%s@%s" % (s["key"], ",".join(dirs_)))
         reached = (s["fn"], s["bb"]) in I.block_hits
         rule = "a site reachable for an accepted program can never fail"
         is_lookup = s["kind"] in ("expect", "unwrap") and _receiver_is_map_get(b, s["term"])
